@@ -211,6 +211,18 @@ def run(ctx):
             kw.pop("max_step", None)
         ctx.count("base_cases")
         run_case(s1, s2, kw, nd)
+    # scale-up slice: pruning matters on long series (start/end column bookkeeping over many rows)
+    for _ in range(ctx.scale(50, 500)):
+        r = rng.randint(20, 120)
+        c = r if rng.random() < 0.4 else max(2, r + rng.choice([-1, 1]) * rng.randint(1, 30))
+        s1, s2 = np.array(gen.structured_series(rng, r)), np.array(gen.structured_series(rng, c))
+        kw = gen.rand_settings(rng, r, c, with_mld=False)
+        if kw.get("window"):
+            kw["window"] = rng.choice([1, 2, 5, abs(r - c) + 1, max(r, c) // 2, max(r, c)]) or 1
+        if rng.random() < 0.5:
+            kw.pop("max_step", None)
+        ctx.count("long_series_cases")
+        run_case(s1, s2, kw, 0)
     # distance matrices with bounds, both engines, vs without
     M = ctx.scale(200, 2500)
     for _ in range(M):
